@@ -26,11 +26,17 @@ def one(item):
 
 
 bad = 0
+skipped = 0
 with ThreadPoolExecutor(max_workers=jobs) as ex:
     for g, p, ok, out in ex.map(one, work):
+        if 'patch does not apply' in out:
+            # written against an earlier commit of /repo (a fix: commit has since changed that code)
+            print('%s/%s skipped (does not apply to this tree)' % (g, os.path.basename(p)), flush=True)
+            skipped += 1
+            continue
         print('%s/%s %s' % (g, os.path.basename(p), 'silent' if ok else 'ALARM'), flush=True)
         if not ok:
             bad += 1
             print(out[-1200:])
-print('neutral corpus: %d patches, %d alarms' % (len(work), bad))
+print('neutral corpus: %d patches, %d alarms, %d skipped' % (len(work), bad, skipped))
 sys.exit(1 if bad else 0)
